@@ -33,7 +33,8 @@ import (
 type run [2]int // n copies of byte b
 
 type opDesc struct {
-	Op     string `json:"op"` // start resume write close commit
+	Op     string `json:"op"` // start resume write close commit; extended scripts: mark resume-mark fault
+	Plan   []int  `json:"plan,omitempty"` // fault: fate of the next requests (0 = goes through, else answered with this status)
 	Hint   int    `json:"hint,omitempty"`
 	Mode   string `json:"mode,omitempty"` // size info at
 	Off    int64  `json:"off,omitempty"`
@@ -47,6 +48,7 @@ type script struct {
 	Ops   []opDesc `json:"ops"`
 	Table [][]run  `json:"table,omitempty"` // contents whose digests matter
 	Shape string   `json:"shape,omitempty"`
+	Kind  string   `json:"kind,omitempty"` // "x": extended script (emitted as KX)
 }
 
 type obsDesc struct {
@@ -123,8 +125,41 @@ func newSwapServer() *swapServer {
 }
 
 func (s *swapServer) client(backend ociregistry.Interface) ociregistry.Interface {
+	return s.clientT(backend, nil)
+}
+
+// faultRT stands between a client and its server: the next requests fare as the plan says -
+// 0 lets the request through, any other value answers it with that HTTP status without the
+// server seeing it (a gateway that is briefly unavailable).
+type faultRT struct {
+	plan []int
+}
+
+func (f *faultRT) RoundTrip(req *http.Request) (*http.Response, error) {
+	if len(f.plan) > 0 {
+		st := f.plan[0]
+		f.plan = f.plan[1:]
+		if st != 0 {
+			if req.Body != nil {
+				io.Copy(io.Discard, req.Body)
+				req.Body.Close()
+			}
+			body := `{"errors":[{"code":"UNAVAILABLE","message":"try again"}]}`
+			return &http.Response{
+				Status: fmt.Sprintf("%d %s", st, http.StatusText(st)), StatusCode: st,
+				Proto: "HTTP/1.1", ProtoMajor: 1, ProtoMinor: 1,
+				Header:        http.Header{"Content-Type": {"application/json"}},
+				Body:          io.NopCloser(strings.NewReader(body)),
+				ContentLength: int64(len(body)), Request: req,
+			}, nil
+		}
+	}
+	return http.DefaultTransport.RoundTrip(req)
+}
+
+func (s *swapServer) clientT(backend ociregistry.Interface, rt http.RoundTripper) ociregistry.Interface {
 	s.h.Store(handlerBox{ociserver.New(backend, nil)})
-	c, err := ociclient.New(strings.TrimPrefix(s.srv.URL, "http://"), &ociclient.Options{Insecure: true})
+	c, err := ociclient.New(strings.TrimPrefix(s.srv.URL, "http://"), &ociclient.Options{Insecure: true, Transport: rt})
 	if err != nil {
 		panic(err)
 	}
@@ -142,6 +177,28 @@ func server(i int) *swapServer {
 
 // build returns the registry the script talks to and the ocimem registries underneath.
 func build(stack string) (ociregistry.Interface, []*ocimem.Registry) {
+	reg, mems, _ := buildX(stack)
+	return reg, mems
+}
+
+// buildX also returns the fault point in front of the outermost server (HTTP stacks hop1 and
+// hop2; nil elsewhere: a fault operation is then a no-op, as in the model).
+func buildX(stack string) (ociregistry.Interface, []*ocimem.Registry, *faultRT) {
+	switch stack {
+	case "hop1":
+		m := ocimem.New()
+		f := &faultRT{}
+		return server(0).clientT(m, f), []*ocimem.Registry{m}, f
+	case "hop2":
+		m := ocimem.New()
+		f := &faultRT{}
+		return server(1).clientT(server(0).client(m), f), []*ocimem.Registry{m}, f
+	}
+	reg, mems := build0(stack)
+	return reg, mems, nil
+}
+
+func build0(stack string) (ociregistry.Interface, []*ocimem.Registry) {
 	switch stack {
 	case "mem":
 		m := ocimem.New()
@@ -244,6 +301,32 @@ func (d opDesc) coq() string {
 	panic("unknown op " + d.Op)
 }
 
+// coqX renders an operation of an extended script (type xop)
+func (d opDesc) coqX() string {
+	mode := func() string {
+		switch d.Mode {
+		case "info":
+			return "MInfo"
+		case "at":
+			return "(MAt " + hx.Z(d.Off) + ")"
+		}
+		return "MSize"
+	}
+	switch d.Op {
+	case "mark":
+		return "XMark"
+	case "resume-mark":
+		return fmt.Sprintf("XResumeMark %s %s", mode(), hx.Z(int64(d.Hint)))
+	case "fault":
+		ps := make([]string, len(d.Plan))
+		for i, p := range d.Plan {
+			ps[i] = hx.Z(int64(p))
+		}
+		return "XFault " + hx.List(ps)
+	}
+	return "XU (" + d.coq() + ")"
+}
+
 type trace struct {
 	Obs    []obsDesc           `json:"obs"`
 	Stored map[string][]string `json:"stored"` // digest -> per registry: "-" or hex summary
@@ -251,8 +334,10 @@ type trace struct {
 
 func runScript(out *hx.Out, sc script, origin string) {
 	ctx := context.Background()
-	reg, mems := build(sc.Stack)
+	reg, mems, fault := buildX(sc.Stack)
 	var cur ociregistry.BlobWriter
+	var mark string
+	marked := false
 	var obs []obsDesc
 	for _, d := range sc.Ops {
 		var o obsDesc
@@ -284,6 +369,37 @@ func runScript(out *hx.Out, sc script, origin string) {
 					return
 				}
 				cur = w
+				o = obsDesc{Res: "ok"}
+			case "mark":
+				if cur == nil {
+					o = obsDesc{Res: "broken", Msg: "no writer"}
+					return
+				}
+				mark, marked = cur.ID(), true
+				o = obsDesc{Res: "ok"}
+			case "resume-mark":
+				if cur == nil || !marked {
+					o = obsDesc{Res: "broken", Msg: "no writer or no remembered id"}
+					return
+				}
+				off := d.Off
+				switch d.Mode {
+				case "size":
+					off = cur.Size()
+				case "info":
+					off = -1
+				}
+				w, err := reg.PushBlobChunkedResume(ctx, sc.Repo, mark, off, d.Hint)
+				if err != nil {
+					o = errObs(err)
+					return
+				}
+				cur = w
+				o = obsDesc{Res: "ok"}
+			case "fault":
+				if fault != nil {
+					fault.plan = append([]int(nil), d.Plan...)
+				}
 				o = obsDesc{Res: "ok"}
 			case "write":
 				if cur == nil {
@@ -404,17 +520,25 @@ func runScript(out *hx.Out, sc script, origin string) {
 	opsCoq := make([]string, len(sc.Ops))
 	obsCoq := make([]string, len(obs))
 	for i := range sc.Ops {
-		opsCoq[i] = sc.Ops[i].coq()
+		if sc.Kind == "x" {
+			opsCoq[i] = sc.Ops[i].coqX()
+		} else {
+			opsCoq[i] = sc.Ops[i].coq()
+		}
 		obsCoq[i] = obs[i].coq()
 	}
 	coq := fmt.Sprintf("KScript {| c_stack := %s; c_repo := %s; c_hash := %s; c_ops := %s; c_obs := %s; c_stored := %s |}",
 		stackCoq[sc.Stack], hx.B(sc.Repo), hx.List(hashCoq), hx.List(opsCoq), hx.List(obsCoq), hx.List(storedCoq))
+	if sc.Kind == "x" {
+		coq = fmt.Sprintf("KX {| xc_stack := %s; xc_repo := %s; xc_hash := %s; xc_ops := %s; xc_obs := %s; xc_stored := %s |}",
+			stackCoq[sc.Stack], hx.B(sc.Repo), hx.List(hashCoq), hx.List(opsCoq), hx.List(obsCoq), hx.List(storedCoq))
+	}
 	shape := sc.Shape
 	if shape == "" {
 		shape = origin
 	}
 	if out.Add(hx.Case{Coq: coq, Desc: map[string]any{"stack": sc.Stack, "repo": sc.Repo, "ops": sc.Ops, "table": sc.Table,
-		"shape": sc.Shape, "observed": tr, "origin": origin},
+		"shape": sc.Shape, "kind": sc.Kind, "observed": tr, "origin": origin},
 		Tags: map[string]any{"class": sc.Stack + ":" + shape, "stack": sc.Stack, "shape": shape}}) {
 		out.Count("stack:" + sc.Stack)
 		out.Count("shape:" + shape)
@@ -854,6 +978,16 @@ func main() {
 	for i := 0; i < nMal; i++ {
 		st := stacks[i%len(stacks)]
 		runScript(out, malformed(rnd, st), "random")
+	}
+	nFault, nRe := 120, 160
+	if cfg.Thorough() {
+		nFault, nRe = 2500, 3000
+	}
+	for i := 0; i < nFault; i++ {
+		runScript(out, withFault(rnd, []string{"hop1", "hop1", "hop1", "hop2"}[i%4]), "random")
+	}
+	for i := 0; i < nRe; i++ {
+		runScript(out, recommit(rnd, stacks[i%len(stacks)]), "random")
 	}
 	if err := out.Flush(); err != nil {
 		panic(err)
